@@ -4429,6 +4429,9 @@ class Device(utils.CompositeEventEmitter):
             def _(error_code: int):
                 pending_result.set_exception(hci.HCI_Error(error_code))
 
+            # Watch for the disconnection before sending: it may be reported
+            # between the command status and the next time this task runs
+            pending_update = connection.cancel_on_disconnection(pending_result)
             await self.send_async_command(
                 hci.HCI_LE_Connection_Update_Command(
                     connection_handle=connection.handle,
@@ -4441,7 +4444,7 @@ class Device(utils.CompositeEventEmitter):
                 )
             )
 
-            await connection.cancel_on_disconnection(pending_result)
+            await pending_update
 
     async def update_connection_parameters_with_subrate(
         self,
@@ -4495,6 +4498,9 @@ class Device(utils.CompositeEventEmitter):
             def _(error_code: int):
                 pending_result.set_exception(hci.HCI_Error(error_code))
 
+            # Watch for the disconnection before sending: it may be reported
+            # between the command status and the next time this task runs
+            pending_update = connection.cancel_on_disconnection(pending_result)
             await self.send_async_command(
                 hci.HCI_LE_Connection_Rate_Request_Command(
                     connection_handle=connection.handle,
@@ -4510,7 +4516,7 @@ class Device(utils.CompositeEventEmitter):
                 )
             )
 
-            await connection.cancel_on_disconnection(pending_result)
+            await pending_update
 
     async def update_connection_subrate(
         self,
@@ -4546,6 +4552,9 @@ class Device(utils.CompositeEventEmitter):
             def _(error_code: int):
                 pending_result.set_exception(hci.HCI_Error(error_code))
 
+            # Watch for the disconnection before sending: it may be reported
+            # between the command status and the next time this task runs
+            pending_update = connection.cancel_on_disconnection(pending_result)
             await self.send_async_command(
                 hci.HCI_LE_Subrate_Request_Command(
                     connection_handle=connection.handle,
@@ -4557,7 +4566,7 @@ class Device(utils.CompositeEventEmitter):
                 )
             )
 
-            await connection.cancel_on_disconnection(pending_result)
+            await pending_update
 
     async def get_connection_rssi(self, connection):
         result = await self.send_sync_command(
@@ -4936,6 +4945,7 @@ class Device(utils.CompositeEventEmitter):
             def _(error_code: int):
                 pending_encryption.set_exception(hci.HCI_Error(error_code))
 
+            command: hci.HCI_AsyncCommand
             if connection.transport == PhysicalTransport.LE:
                 # Look for a key in the key store
                 if self.keystore is None:
@@ -4960,24 +4970,25 @@ class Device(utils.CompositeEventEmitter):
                 if connection.role != hci.Role.CENTRAL:
                     raise InvalidStateError('only centrals can start encryption')
 
-                await self.send_async_command(
-                    hci.HCI_LE_Enable_Encryption_Command(
-                        connection_handle=connection.handle,
-                        random_number=rand,
-                        encrypted_diversifier=ediv,
-                        long_term_key=ltk,
-                    )
+                command = hci.HCI_LE_Enable_Encryption_Command(
+                    connection_handle=connection.handle,
+                    random_number=rand,
+                    encrypted_diversifier=ediv,
+                    long_term_key=ltk,
                 )
             else:
-                await self.send_async_command(
-                    hci.HCI_Set_Connection_Encryption_Command(
-                        connection_handle=connection.handle,
-                        encryption_enable=0x01 if enable else 0x00,
-                    )
+                command = hci.HCI_Set_Connection_Encryption_Command(
+                    connection_handle=connection.handle,
+                    encryption_enable=0x01 if enable else 0x00,
                 )
 
+            # Watch for the disconnection before sending: it may be reported
+            # between the command status and the next time this task runs
+            pending_result = connection.cancel_on_disconnection(pending_encryption)
+            await self.send_async_command(command)
+
             # Wait for the result
-            await connection.cancel_on_disconnection(pending_encryption)
+            await pending_result
 
     async def update_keys(self, address: str, keys: PairingKeys) -> None:
         if self.keystore is None:
@@ -5005,10 +5016,13 @@ class Device(utils.CompositeEventEmitter):
             def _(error_code: int):
                 pending_role_change.set_exception(hci.HCI_Error(error_code))
 
+            # Watch for the disconnection before sending: it may be reported
+            # between the command status and the next time this task runs
+            pending_result = connection.cancel_on_disconnection(pending_role_change)
             await self.send_async_command(
                 hci.HCI_Switch_Role_Command(bd_addr=connection.peer_address, role=role)
             )
-            await connection.cancel_on_disconnection(pending_role_change)
+            await pending_result
 
     # [Classic only]
     async def request_remote_name(self, remote: hci.Address | Connection) -> str:
@@ -5377,26 +5391,30 @@ class Device(utils.CompositeEventEmitter):
                 else:
                     read_feature_future.set_exception(hci.HCI_Error(status))
 
+            # Watch for the disconnection before sending: it may be reported
+            # between the command status and the next time this task runs
+            pending_result = connection.cancel_on_disconnection(read_feature_future)
             await self.send_async_command(
                 hci.HCI_Read_Remote_Supported_Features_Command(
                     connection_handle=connection.handle
                 )
             )
 
-            new_features, max_page_number = await read_feature_future
+            new_features, max_page_number = await pending_result
             read_features |= new_features
             if not (read_features & hci.LmpFeatureMask.EXTENDED_FEATURES):
                 return read_features
 
             while current_page_number <= max_page_number:
                 read_feature_future = asyncio.get_running_loop().create_future()
+                pending_result = connection.cancel_on_disconnection(read_feature_future)
                 await self.send_async_command(
                     hci.HCI_Read_Remote_Extended_Features_Command(
                         connection_handle=connection.handle,
                         page_number=current_page_number,
                     )
                 )
-                new_features, max_page_number = await read_feature_future
+                new_features, max_page_number = await pending_result
                 read_features |= new_features << (current_page_number * 64)
                 current_page_number += 1
 
